@@ -19,6 +19,9 @@
 //  (D2) calcMotionPower == -tau.u
 //  (R2) multiplyByMInv / calcMInv: prescribed rows (and columns) exactly zero, prescribed entries of the argument not
 //       examined (NaN-poisoned), free block == inverse of the free block of MY reference mass matrix (refdyn).
+//  Constraint stage (1/3 of the cases, 1-2 Ball/Rod constraints, state not assembled): R1 (prescribed values are untouched by
+//       the constraint solve), D1 in the form calcResidualForce(applied, udot, lambda) == -tau (M udot + ~G lambda + tau = f),
+//       D2, R2 and the non-dynamic part of M2 are judged; the twin comparisons (M1, release udot) only without constraints.
 //  (M2) release: unlock() + Motion::disable() on every mobilizer => no multipliers, prescribe() changes nothing, udot ==
 //       the twin's free udot; a lock on top of a Motion: after unlock() alone the Motion is back in control.
 #include "pbt.h"
@@ -42,9 +45,12 @@ struct Eff {
     bool udKnown() const { return kind != presc::None; }
 };
 
+struct ConSpec { int type = 0, b1 = 0, b2 = 1; Vec3 p1, p2; double len = 1; };
+
 struct Model {
     mbgen::Built m; std::vector<Motion> motion; Force::DiscreteForces disc;
-    Model(const mbgen::ModelSpec& spec, const std::vector<presc::MotionSpec>* mot, const Vec3& grav, int gravKind) : m(spec), disc(m.forces, m.matter) {
+    Model(const mbgen::ModelSpec& spec, const std::vector<presc::MotionSpec>* mot, const Vec3& grav, int gravKind, const std::vector<ConSpec>* cons = nullptr) : m(spec), disc(m.forces, m.matter) {
+        if (cons) for (auto& c : *cons) { if (c.type == 0) Constraint::Ball(m.mb[c.b1], c.p1, m.mb[c.b2], c.p2); else Constraint::Rod(m.mb[c.b1], c.p1, m.mb[c.b2], c.p2, c.len); }
         const int nb = spec.nBodies(); motion.resize(nb + 1);
         if (mot) for (int i = 1; i <= nb; ++i) {
             const presc::MotionSpec& ms = (*mot)[i];
@@ -89,6 +95,11 @@ void property(const pbt::Tape& t, pbt::Ctx& ctx) {
     const double fMag = g.logreal(0.01, 100), FMag = g.logreal(0.01, 100);
     const bool zeroF = g.chance(1, 8), zeroMob = g.chance(1, 8);
     const bool useSystemPrescribe = g.boolean();
+    // constraint stage (1/3 of the cases): 1-2 Constraint::Ball / Rod between different random bodies (Ground allowed)
+    std::vector<ConSpec> cons;
+    {   uint32_t w = g.w(); int nCons = (w == 0 || w % 3u != 1) ? 0 : 1 + int((w >> 3) & 1u);
+        for (int c = 0; c < 2; ++c) { ConSpec cs; cs.type = g.pick(2); cs.b1 = g.pick(NB); cs.b2 = g.pick(NB); if (cs.b2 == cs.b1) cs.b2 = (cs.b1 + 1) % NB;
+            cs.p1 = mbgen::readVec3(g, -0.7, 0.7); cs.p2 = mbgen::readVec3(g, -0.7, 0.7); cs.len = g.logreal(0.3, 2); if (c < nCons) cons.push_back(cs); } }
     std::vector<presc::MotionSpec> mot(NB); std::vector<int> overLock(NB, -1);   // overLock: level of a lock placed on top of a Motion
     for (int i = 1; i <= nb; ++i) {
         static const pbt::Seg zero(mbgen::K, 0u); const pbt::Seg& seg = i < (int)t.size() ? t[i] : zero;
@@ -100,10 +111,12 @@ void property(const pbt::Tape& t, pbt::Ctx& ctx) {
         spec.describe(ctx.desc);
         ctx.desc << "t=" << tCase << " gravity(kind " << gravKind << ")=" << grav << " fMag=" << fMag << " FMag=" << FMag << " zeroF=" << zeroF << " zeroMobForces=" << zeroMob << " System::prescribe=" << useSystemPrescribe << "\n";
         for (int i = 1; i <= nb; ++i) { presc::describe(ctx.desc, i, mot[i]); if (overLock[i] >= 0) ctx.desc << "   + lock(" << presc::levelName(overLock[i]) << ") on top of the Motion\n"; }
+        for (auto& c : cons) ctx.desc << " constraint " << (c.type == 0 ? "Ball" : "Rod") << " bodies " << c.b1 << "," << c.b2 << " p1=" << c.p1 << " p2=" << c.p2 << " len=" << c.len << "\n";
     }
     mbgen::labelModel(ctx, spec);
 
-    Model P(spec, &mot, grav, gravKind), T(spec, nullptr, grav, gravKind);
+    Model P(spec, &mot, grav, gravKind, &cons), T(spec, nullptr, grav, gravKind);
+    const bool constrained = !cons.empty();
     State& s = P.m.state; const SimbodyMatterSubsystem& matter = P.m.matter;
     const int nu = s.getNU(), nq = s.getNQ();
     if (nu == 0) { ctx.reject("nu=0"); return; }
@@ -221,6 +234,7 @@ void property(const pbt::Tape& t, pbt::Ctx& ctx) {
     for (int i = 1; i <= nb; ++i) if (eff[i].kind != presc::None) { ctx.label(std::string("presc:") + presc::kindName(eff[i].kind) + "/" + presc::levelName(eff[i].level) + (mbgen::mobQDotIsU(spec.bodies[i - 1].type) ? "" : "/qdot!=u"));
         if (overLock[i] >= 0) ctx.label("lock-over-motion"); if (mot[i].isMotion() && (mot[i].variant & 1)) ctx.label("motion-disabled-by-default+enable"); if (mot[i].kind == presc::Steady && (mot[i].variant & 2)) ctx.label("steady-rate-set-in-state"); }
     ctx.label(useSystemPrescribe ? "route:System::prescribe" : "route:prescribeQ/prescribeU");
+    ctx.label(constrained ? "constrained" : "unconstrained"); if (constrained && anyPresc) ctx.label("constrained+prescribed");
 
     // ---- prescribe + realize
     auto prescribeAndRealize = [&](State& st, bool viaSystem) {
@@ -234,7 +248,7 @@ void property(const pbt::Tape& t, pbt::Ctx& ctx) {
         Real uMax = 1 + refdyn::maxAbs(u);
         for (int j = 0; j < nq; ++j) {
             if (!qK[j]) { if (!bitEq(q[j], qRef[j])) { ctx.fail(phase + "free coordinate q[" + std::to_string(j) + "] was changed by prescribe from " + S(qRef[j]) + " to " + S(q[j])); return false; } continue; }
-            if (qK[j] == 3 ? !bitEq(q[j], qExp[j]) : !near(q[j], qExp[j], 0)) { ctx.fail(phase + "prescribed q[" + std::to_string(j) + "]=" + S(q[j]) + " but the prescription gives " + S(qExp[j])); return false; }
+            if (qK[j] == 3 ? !bitEq(q[j], qExp[j]) : !near(q[j], qExp[j], 1)) { ctx.fail(phase + "prescribed q[" + std::to_string(j) + "]=" + S(q[j]) + " but the prescription gives " + S(qExp[j])); return false; }
             if (qdFromTraj[j]) {
                 if (!(std::abs(qd[j] - qdExp[j]) <= 1e3 * Eps * (std::abs(qdExp[j]) + uMax))) { ctx.fail(phase + "qdot[" + std::to_string(j) + "]=" + S(qd[j]) + " of a position-prescribed mobilizer differs from d/dt of the prescribed trajectory " + S(qdExp[j])); return false; }
                 if (!(std::abs(qdd[j] - qddExp[j]) <= 1e4 * Eps * (std::abs(qddExp[j]) + uMax * uMax))) { ctx.fail(phase + "qdotdot[" + std::to_string(j) + "]=" + S(qdd[j]) + " of a position-prescribed mobilizer differs from the second derivative of the prescribed trajectory " + S(qddExp[j])); return false; }
@@ -242,13 +256,13 @@ void property(const pbt::Tape& t, pbt::Ctx& ctx) {
         }
         for (int j = 0; j < nu; ++j) {
             if (!uK[j]) { if (!bitEq(u[j], uRef[j])) { ctx.fail(phase + "free speed u[" + std::to_string(j) + "] was changed by prescribe from " + S(uRef[j]) + " to " + S(u[j])); return false; } }
-            else if (uK[j] == 1 && (exact[j] ? !bitEq(u[j], uExp[j]) : !near(u[j], uExp[j], 0))) { ctx.fail(phase + "prescribed u[" + std::to_string(j) + "]=" + S(u[j]) + " but the prescription gives " + S(uExp[j])); return false; }
-            if (udK[j] == 1 && (exact[j] ? !bitEq(ud[j], udExp[j]) : !near(ud[j], udExp[j], 0))) { ctx.fail(phase + "prescribed udot[" + std::to_string(j) + "]=" + S(ud[j]) + " but the prescription gives " + S(udExp[j])); return false; }
+            else if (uK[j] == 1 && (exact[j] ? !bitEq(u[j], uExp[j]) : !near(u[j], uExp[j], 1))) { ctx.fail(phase + "prescribed u[" + std::to_string(j) + "]=" + S(u[j]) + " but the prescription gives " + S(uExp[j])); return false; }
+            if (udK[j] == 1 && (exact[j] ? !bitEq(ud[j], udExp[j]) : !near(ud[j], udExp[j], 1))) { ctx.fail(phase + "prescribed udot[" + std::to_string(j) + "]=" + S(ud[j]) + " but the prescription gives " + S(udExp[j])); return false; }
         }
         // qdot == u mobilizers prescribed at position level: u and udot directly
         for (int i = 1; i <= nb; ++i) if (mbgen::mobQDotIsU(spec.bodies[i - 1].type)) for (int k = 0; k < nub[i]; ++k) { int ju = u0[i] + k, jq = q0[i] + k;
-            if (uK[ju] == 2 && !near(u[ju], qdExp[jq], 0)) { ctx.fail(phase + "u[" + std::to_string(ju) + "]=" + S(u[ju]) + " but the derivative of the prescribed q(t) is " + S(qdExp[jq])); return false; }
-            if (udK[ju] == 2 && !near(ud[ju], qddExp[jq], 0)) { ctx.fail(phase + "udot[" + std::to_string(ju) + "]=" + S(ud[ju]) + " but the second derivative of the prescribed q(t) is " + S(qddExp[jq])); return false; } }
+            if (uK[ju] == 2 && !near(u[ju], qdExp[jq], 1)) { ctx.fail(phase + "u[" + std::to_string(ju) + "]=" + S(u[ju]) + " but the derivative of the prescribed q(t) is " + S(qdExp[jq])); return false; }
+            if (udK[ju] == 2 && !near(ud[ju], qddExp[jq], 1)) { ctx.fail(phase + "udot[" + std::to_string(ju) + "]=" + S(ud[ju]) + " but the second derivative of the prescribed q(t) is " + S(qddExp[jq])); return false; } }
         // motion errors
         const Stage stages[3] = {Stage::Position, Stage::Velocity, Stage::Acceleration}; const int want[3] = {nKnownQ, nKnownU, nKnownUd};
         for (int k = 0; k < 3; ++k) { Vector e = matter.calcMotionErrors(st, stages[k]);
@@ -262,7 +276,15 @@ void property(const pbt::Tape& t, pbt::Ctx& ctx) {
         for (int j = 0, p = 0; j < nu; ++j) { if (udK[j]) { if (!bitEq(tau[j], tauP[p])) { ctx.fail(phase + "findMotionForces[" + std::to_string(j) + "] is not multiplier " + std::to_string(p)); return false; } ++p; } else if (tau[j] != 0) { ctx.fail(phase + "findMotionForces[" + std::to_string(j) + "]=" + S(tau[j]) + " on a free mobility"); return false; } }
         return true;
     };
-    prescribeAndRealize(s, useSystemPrescribe);
+    try { prescribeAndRealize(s, useSystemPrescribe); }
+    catch (const std::exception&) { if (constrained) { ctx.reject("constraint-solve-refused"); return; } throw; }
+    const Vector lambda = s.getMultipliers();
+    if (constrained) {   // multipliers that blew up (constraints between relatively immobile bodies, C08's subject): nothing to judge
+        Real appScale = 1 + fMag + FMag + grav.norm() * 20 * 8; bool bad = false;
+        for (int i = 0; i < lambda.size(); ++i) if (!std::isfinite(lambda[i]) || std::abs(lambda[i]) > 1e8 * appScale) bad = true;
+        for (int i = 0; i < nu; ++i) if (!std::isfinite(s.getUDot()[i])) bad = true;
+        if (bad) { ctx.reject("constraint-multiplier-blowup"); return; }
+    }
     if (!judgeValues(s, qPre, uPre, "")) return;
     Vector tau; matter.findMotionForces(s, tau);
     const Vector udotP = s.getUDot();
@@ -278,17 +300,21 @@ void property(const pbt::Tape& t, pbt::Ctx& ctx) {
     const Vector& fApp = P.m.sys.getMobilityForces(s, Stage::Dynamics); const Vector_<SpatialVec>& FApp = P.m.sys.getRigidBodyForces(s, Stage::Dynamics);
     Real fScale = 0;
     {   auto V = refdyn::bodyVelocities(matter, s);
-        for (int i = 0; i < nu; ++i) { Real a = std::abs(fApp[i]) + std::abs(tau[i]);
+        Vector_<SpatialVec> Fc(NB); Fc = SpatialVec(Vec3(0), Vec3(0)); Vector fc(nu); fc = 0;
+        if (constrained && lambda.size()) matter.calcConstraintForcesFromMultipliers(s, lambda, Fc, fc);
+        for (int i = 0; i < nu; ++i) { Real a = std::abs(fApp[i]) + std::abs(tau[i]) + std::abs(fc[i]);
+            for (int b = 1; b < NB; ++b) a += J[i][b][0].norm() * Fc[b][0].norm() + J[i][b][1].norm() * Fc[b][1].norm();
             for (int b = 1; b < NB; ++b) { SpatialVec gy = refdyn::gyro(si[b], V[b]); const SpatialVec& A = matter.getMobilizedBody(MobilizedBodyIndex(b)).getBodyAcceleration(s); SpatialVec ma = refdyn::mul(si[b], A);
                 a += J[i][b][0].norm() * (ma[0].norm() + gy[0].norm() + FApp[b][0].norm()) + J[i][b][1].norm() * (ma[1].norm() + gy[1].norm() + FApp[b][1].norm()); }
             fScale = std::max(fScale, a); }
+        if (constrained && lambda.size()) { Vector Gtl; matter.multiplyByGTranspose(s, lambda, Gtl); fScale += refdyn::maxAbs(Gtl); }
         fScale += 1e-300; }
     const Real tolUd = 100 * Eps * nu * (kappa * refdyn::maxAbs(udotP) + fScale / lmin) + 1e-300;
     Real worstTwin = 0, worstRes = 0, worstMInv = 0;
 
     // ---- (M1) twin driven with f - tau reproduces all udot
     Vector udotFree;   // twin with f only (for M2)
-    {
+    if (!constrained) {
         T.disc.setAllBodyForces(ts, F);
         Vector fm = f - tau; T.disc.setAllMobilityForces(ts, fm);
         T.m.sys.realize(ts, Stage::Acceleration);
@@ -299,10 +325,12 @@ void property(const pbt::Tape& t, pbt::Ctx& ctx) {
     }
     // ---- (D1) inverse dynamics residual == -tau
     {
-        Vector r; matter.calcResidualForceIgnoringConstraints(s, fApp, FApp, udotP, r);
+        Vector r;
+        if (constrained) matter.calcResidualForce(s, fApp, FApp, udotP, lambda, r);      // M udot + ~G lambda + f_inertial - f_applied = -tau
+        else matter.calcResidualForceIgnoringConstraints(s, fApp, FApp, udotP, r);
         const Real tol = 1e3 * Eps * nu * std::sqrt(kappa) * fScale;
         for (int i = 0; i < nu; ++i) { worstRes = std::max(worstRes, std::abs(r[i] + tau[i]) / tol * 1e3);
-            if (!(std::abs(r[i] + tau[i]) <= tol)) { ctx.fail("inverse dynamics residual[" + std::to_string(i) + "]=" + S(r[i]) + " is not -tau = " + S(-tau[i]) + " (M udot + tau = f; tol " + S(tol) + ")"); return; } }
+            if (!(std::abs(r[i] + tau[i]) <= tol)) { ctx.fail(std::string("inverse dynamics residual") + (constrained ? " (with constraint multipliers)" : "") + "[" + std::to_string(i) + "]=" + S(r[i]) + " is not -tau = " + S(-tau[i]) + " (M udot + ~G lambda + tau = f; tol " + S(tol) + ")"); return; } }
     }
     // ---- (D2) power
     {
@@ -342,7 +370,8 @@ void property(const pbt::Tape& t, pbt::Ctx& ctx) {
             const Vector q2 = s2.getQ(), u2 = s2.getU();
             expectAll(e2, tCase);
             nKnownQ = nKnownU = nKnownUd = 0; for (int j = 0; j < nq; ++j) if (qK[j]) nKnownQ++; for (int j = 0; j < nu; ++j) { if (uK[j]) nKnownU++; if (udK[j]) nKnownUd++; }
-            prescribeAndRealize(s2, !useSystemPrescribe);
+            try { prescribeAndRealize(s2, !useSystemPrescribe); }
+            catch (const std::exception&) { if (constrained) { ctx.reject("constraint-solve-refused"); return; } throw; }
             if (!judgeValues(s2, q2, u2, "after unlock() of a lock placed over a Motion: ")) return;
         }
         State s3 = s;
@@ -354,13 +383,14 @@ void property(const pbt::Tape& t, pbt::Ctx& ctx) {
         if (!ctx.check(!cq && !cu, "prescribeQ/prescribeU report a change although nothing is prescribed any more")) return;
         for (int j = 0; j < nq; ++j) if (!bitEq(s3.getQ()[j], q3[j])) { ctx.fail("after release prescribeQ changed q[" + std::to_string(j) + "]"); return; }
         for (int j = 0; j < nu; ++j) if (!bitEq(s3.getU()[j], u3[j])) { ctx.fail("after release prescribeU changed u[" + std::to_string(j) + "]"); return; }
-        P.m.sys.realize(s3, Stage::Acceleration);
+        try { P.m.sys.realize(s3, Stage::Acceleration); }
+        catch (const std::exception&) { if (constrained) { ctx.reject("constraint-solve-refused"); return; } throw; }
         if (!ctx.check(matter.getMotionMultipliers(s3).size() == 0, "motion multipliers remain after unlock()/disable()")) return;
         for (int k = 0; k < 3; ++k) if (!ctx.check(matter.calcMotionErrors(s3, k == 0 ? Stage::Position : k == 1 ? Stage::Velocity : Stage::Acceleration).size() == 0, "calcMotionErrors not empty after release")) return;
         const Real tol3 = 100 * Eps * nu * (kappa * refdyn::maxAbs(udotFree) + fScale / lmin) + 1e-300;
-        for (int i = 0; i < nu; ++i) if (!(std::abs(s3.getUDot()[i] - udotFree[i]) <= tol3)) { ctx.fail("after unlock()/Motion::disable() udot[" + std::to_string(i) + "]=" + S(s3.getUDot()[i]) + " differs from the free twin's " + S(udotFree[i]) + " (tol " + S(tol3) + ")"); return; }
+        if (!constrained) for (int i = 0; i < nu; ++i) if (!(std::abs(s3.getUDot()[i] - udotFree[i]) <= tol3)) { ctx.fail("after unlock()/Motion::disable() udot[" + std::to_string(i) + "]=" + S(s3.getUDot()[i]) + " differs from the free twin's " + S(udotFree[i]) + " (tol " + S(tol3) + ")"); return; }
     }
-    if (getenv("C10_CALIB")) fprintf(stderr, "CALIB kappa=%.3g TWIN=%.3g RES=%.3g MINV=%.3g\n", kappa, worstTwin, worstRes, worstMInv);
+    if (getenv("C10_CALIB")) fprintf(stderr, "CALIB c=%d kappa=%.3g TWIN=%.3g RES=%.3g MINV=%.3g\n", (int)constrained, kappa, worstTwin, worstRes, worstMInv);
 }
 
 // Directed reproducer for cantileverfreebeam-default-q-uninitialized. The heap is pre-poisoned with NaN patterns in all small
@@ -392,15 +422,15 @@ void directedLockAtVelocity(pbt::Ctx& ctx) {
 
 pbt::Config config() {
     pbt::Config c; c.prop = "C10"; c.K = mbgen::K; c.minUnits = 1;
-    c.quick = {1500, 6000, 24, 25}; c.thorough = {15000, 40000, 24, 240};
-    c.rule = "rapidcheck tape -> mbgen tree (1..6 bodies, 18 mobilizer types, forward/reversed, frames, quaternion/Euler); each mobilizer with nu>0 carries with probability 7/12 a prescription: Motion::Steady (scalar or per-mobility rates, optionally changed in the State), Motion::Sinusoid, Motion::Custom polynomial/axis-angle trajectory at Position/Velocity/Acceleration level, lock(), lockAt() (three signatures), lockByDefault() at the three levels; 1/5 of the Motions additionally get a lock on top, half of the Motions are created disabled-by-default and enabled in the State; random time in [0,2], gravity, mobility forces and body wrenches. Non-trivial: a prescribed mobilizer with a free ancestor and a free descendant, and >= 2 prescribed mobilities; distinct by tape hash.";
+    c.quick = {2000, 12000, 24, 25}; c.thorough = {15000, 60000, 24, 240};
+    c.rule = "rapidcheck tape -> mbgen tree (1..6 bodies, 18 mobilizer types, forward/reversed, frames, quaternion/Euler); each mobilizer with nu>0 carries with probability 7/12 a prescription: Motion::Steady (scalar or per-mobility rates, optionally changed in the State), Motion::Sinusoid, Motion::Custom polynomial/axis-angle trajectory at Position/Velocity/Acceleration level, lock(), lockAt() (three signatures), lockByDefault() at the three levels; 1/5 of the Motions additionally get a lock on top, half of the Motions are created disabled-by-default and enabled in the State; random time in [0,2], gravity, mobility forces and body wrenches; 1/3 of the cases add 1-2 Constraint::Ball/Rod between random bodies. Non-trivial: a prescribed mobilizer with a free ancestor and a free descendant, and >= 2 prescribed mobilities; distinct by tape hash.";
     c.assumptions = {"position-level trajectories are generated inside the mobilizers' documented non-singular domains (presc.h): unit quaternions with tangent derivatives, no coordinate trajectories on LineOrientation/FreeLine/SphericalCoords-Sinusoid",
-                     "prescribed values: 4 ulp against the same formula evaluated in the harness, bitwise for locks and zeros; qdot/qdotdot of qdot!=u mobilizers 1e3..1e4 eps x (1+|u|)^2",
+                     "prescribed values: 4 eps x (|a|+|b|+1) against the same formula evaluated in the harness, bitwise for locks and zeros; qdot/qdotdot of qdot!=u mobilizers 1e3..1e4 eps x (1+|u|)^2",
                      "twin / release udot: 100*eps*nu*(kappa*|udot| + forceScale/lambda_min(M_ref)); residual: 1e3*eps*nu*sqrt(kappa)*forceScale; MInv: 1e3*eps*nu*kappa*|M_ff^-1|; kappa(M_ref) >= 1e8 rejected"};
     c.directed = {{"lockat-velocity-u", "lockat-velocity-u-not-set", directedLockAtVelocity}, {"beam-default-q", "cantileverfreebeam-default-q-uninitialized", directedBeamDefaultQ}};
     c.requiredLabels = {"interior-prescribed", "all-prescribed", "mixed", "presc:Steady/Velocity", "presc:Sinusoid/Position", "presc:Sinusoid/Velocity", "presc:Sinusoid/Acceleration", "presc:Traj/Position", "presc:Traj/Position/qdot!=u", "presc:Traj/Velocity/qdot!=u",
                         "presc:lock/Position", "presc:lock/Velocity", "presc:lock/Acceleration", "presc:lockAt/Position", "presc:lockAt/Position/qdot!=u", "presc:lockAt/Velocity", "presc:lockAt/Acceleration", "presc:lockByDefault/Position", "presc:lockByDefault/Velocity", "presc:lockByDefault/Acceleration",
-                        "lock-over-motion", "motion-disabled-by-default+enable", "steady-rate-set-in-state", "route:System::prescribe", "route:prescribeQ/prescribeU"};
+                        "lock-over-motion", "motion-disabled-by-default+enable", "steady-rate-set-in-state", "route:System::prescribe", "route:prescribeQ/prescribeU", "constrained+prescribed", "unconstrained"};
     return c;
 }
 } // namespace
